@@ -211,3 +211,41 @@ prop(
     rule=("evaluations = scenarios; non-trivial = trace with >=1 spawn and >=1 of {kill, signal, spawn failure}; distinct by abstract trace"),
     tiers={"quick": {"shards": NC, "budget": 25, "min_evaluations": 20000}, "thorough": {"shards": NC, "budget": 420}},
 )
+
+prop(
+    "C11",
+    title="Path filter verdicts follow the documented glob, ignore and extension rules",
+    engine="pure",
+    level="exploration",
+    level_text=("seeded generation of filterer configurations (0-3 filter patterns, 0-3 ignore patterns with occasional negations, "
+                "0-2 extensions, 0-1 whitelisted file, 0-1 ignore file at the origin) over the glob grammar, each probed with 40 "
+                "events (0-3 paths, file / dir / symlink / unknown type, inside and outside the origin). The verdict of the real "
+                "GlobsetFilterer::check_event is compared with the statement evaluated by an independent glob matcher; every "
+                "(pattern, path) pair is cross-checked against the ignore-crate primitive and a disagreement makes the case "
+                "oracle-ambiguous (inconclusive), so only the composition logic is judged. Oracle-free laws: empty configuration "
+                "passes everything, an added non-negated ignore pattern never turns a rejection into a pass, a whitelisted file "
+                "always passes"),
+    level_note="negated *filter* patterns are not generated (not in the statement's grammar; the 1.x compatibility re-match interacts with them)",
+    technique="differential monitor against an independent evaluation of the documented rules + metamorphic relations",
+    rule="evaluations = (configuration, event) pairs; non-trivial = event with >=1 path under a configuration with >=1 rule, distinct by configuration class x verdict x file types",
+    tiers={"quick": {"shards": NC, "budget": 30, "min_evaluations": 100000}, "thorough": {"shards": NC, "budget": 300}},
+)
+
+prop(
+    "C14",
+    title="Ignore-file discovery finds exactly the applicable files and prunes ignored dirs",
+    engine="pure",
+    level="exploration",
+    level_text=("seeded generation of real directory trees (depth <= 4, fan-out <= 4, prefix-related names) with .gitignore / .ignore / "
+                ".hgignore files (non-empty, empty, directories of that name) whose patterns ignore directories, files or nothing, "
+                "with negations; VCS metadata directories with decoy ignore files at the origin and deeper; origin-level files "
+                "(.git/info/exclude, core.excludesFile, .bzrignore, _darcs/prefs/boring, .fossil-settings/ignore-glob); explicit "
+                "ignore files and explicit watch lists. from_origin's result is compared as a set of (path, applies_in, applies_to) "
+                "with an independent walker built on the C03 reference evaluator; the error list must be empty; the same logical "
+                "tree is re-created twice in different creation orders on tmpfs (/dev/shm lists in creation order) and must give "
+                "the same result"),
+    level_note="the reference evaluator is the one validated against git in C03; trees are readable (no permission faults)",
+    technique="reference-model monitor (independent walker) over generated real directory trees + listing-order metamorphic relation",
+    rule="evaluations = trees; non-trivial = discovery returned >=2 files, distinct by the set of returned paths",
+    tiers={"quick": {"shards": NC, "budget": 30, "min_evaluations": 1500}, "thorough": {"shards": NC, "budget": 300}},
+)
